@@ -291,6 +291,12 @@ def run(repo: Repo) -> Result:
         if isinstance(e, ast.Name):
             if e.id in local1:
                 return markup_when_autoescape(local1[e.id], depth + 1)
+            # bound in several branches (`if autoescape: j = Markup("") else: j = ""`): every binding
+            # that can be live under autoescape must be Markup
+            ba = [(st_, [_canon(c_) for c_ in cs_]) for st_, cs_ in _conditions(tls.node) if isinstance(st_, ast.Assign) and len(st_.targets) == 1 and is_name(st_.targets[0], e.id)]
+            if ba:
+                live = [st_ for st_, cc_ in ba if "not autoescape" not in cc_]
+                return bool(live) and all(markup_when_autoescape(st_.value, depth + 1) for st_ in live)
             v = tls.module.assigns.get(e.id)
             if v is not None:
                 return markup_when_autoescape(v, depth + 1)
